@@ -38,6 +38,9 @@ Record pobs := mkPObs {
 Inductive pxcase :=
 | CProxy (pname : Z) (buf : nat) (icp : Z) (steps : list (list act)) (observed : list pobs)
     (* buf: the per-destination buffer size measured on the running code (calibration) *)
+| CProxyLoose (pname : Z) (buf : nat) (icp : Z) (steps : list (list act)) (observed : list pobs)
+    (* the same, for steps that group faults and cancellation with traffic (no waiting in between): judged by the
+       property predicates alone *)
 | CProxyE2E (results : list (Z * Z))
     (* (expected, observed) outcome tokens of RPCs run through a real Proxy (+ Demux + Server) *)
 | CProxyFree (pname : Z) (buf : nat) (icp : Z) (names : list Z) (sent : list (Z * env)) (got : list (Z * env)) (drops : Z) (clean : bool).
@@ -198,8 +201,9 @@ Definition xsuccs (cf : cfg) (x : xstate) : list xstate :=
 Definition is_attach (a : act) : bool := match a with AAttach _ _ => true | _ => false end.
 
 Definition react_all (cf : cfg) (s : state) (acts : list act) : option (list state) :=
-  if existsb is_attach acts then
-    (* AddClient is performed at a quiescent point, alone (its record number is fixed beforehand) *)
+  if existsb is_attach acts || forallb (fun a => match a with ADeliver _ _ => true | _ => false end) acts then
+    (* AddClient is performed at a quiescent point, alone (its record number is fixed beforehand); deliveries
+       only add to the queues of the transports and commute with every rule: performing them first loses nothing *)
     let s1 := fold_left ext acts (clear_log s) in
     explore state_eqb (int_succs cf) 60000 [s1] [s1] []
   else
@@ -576,6 +580,10 @@ Definition check (c : pxcase) : list nat :=
       ++ (if spec_no_loss f steps observed then [] else [3%nat])
       ++ (if wf_buf buf then [] else [4%nat])
       ++ (if spec_dial f steps observed then [] else [5%nat])
+  | CProxyLoose pname buf icp steps observed =>
+      let f := icp_of icp in
+      (if spec_delivered pname f steps observed && spec_loss_accounted buf f steps observed then [] else [2%nat])
+      ++ (if wf_buf buf then [] else [4%nat])
   | CProxyE2E results =>
       if forallb (fun p => fst p =? snd p) results then [] else [6%nat]
   | CProxyFree pname buf icp names sent got drops clean =>
